@@ -389,6 +389,10 @@ class VerifyTask:
             self.config.rounding_hints = True
         if getattr(c, "cover_timeout_ms", None):
             self.config.cover_timeout_ms = c.cover_timeout_ms
+        if getattr(c, "qf_forall_only", False):
+            # values.forall: decide "is the range empty on this path?" on the quantifier-free part of the path
+            # condition only (an optimisation: an undetected empty range just yields a vacuous quantifier)
+            self.config.qf_forall_only = True
         self.ref = fn_override or SRC.resolve(c.target)
         self.used_contracts: set = set()
         self.inlined: set = set()
